@@ -25,7 +25,7 @@ DEFAULT_PROFILE = {
         'status': 8, 'stale_status': 2,
         'pr_event': 8, 'child_event': 2, 'commit_event': 6,
         'admin': 1, 'decline': 0.5, 'w_commit': 0.5, 'delete_source': 0.3,
-        'push_to_destination': 0,
+        'push_to_destination': 0, 'hand_branch': 0, 'push_tag': 0,
     },
     'comments': ['@robot bypass_build_status', '@robot bypass_peer_approval',
                  '/wait', '@robot status', '/help', '@robot: unknown_word',
@@ -238,6 +238,44 @@ class Gen:
             d = dests[-1] if self.rng.random() < 0.6 else \
                 self.rng.choice(dests)
             self.w.do('push_commit', branch=d, user=LEAD)
+
+    def _next_dev(self):
+        """(name, base) of a development branch newer than every existing
+        one, to be opened from the tip of the newest"""
+        devs = [d for d in self.dests() if d.startswith('development/')]
+        if not devs:
+            return None
+        order = oracle.chain(devs)
+        last = order[-1]
+        major = int(oracle.version_of(last).split('.')[0])
+        return 'development/%d.0' % (major + 1), last
+
+    def m_hand_branch(self):
+        """somebody opens the next development branch with plain git"""
+        nd = self._next_dev()
+        if nd and len(self.dests()) < 6:
+            self.w.do('create_branch_by_hand', branch=nd[0], base=nd[1])
+
+    def m_push_tag(self):
+        """somebody releases: tag x.y.z on a development / stabilization
+        branch (the next patch of that line)"""
+        heads, tags = self.w.refs()
+        dests = [d for d in self.dests() if d.count('.') >= 1 and
+                 not d.startswith('hotfix/')]
+        if not dests:
+            return
+        d = self.rng.choice(dests)
+        v = oracle.version_of(d).split('.')
+        if d.startswith('stabilization/'):
+            tag = '.'.join(v)
+        else:
+            patches = [int(t.split('.')[2]) for t in tags
+                       if t.count('.') == 2 and t.split('.')[:2] == v and
+                       t.split('.')[2].isdigit()]
+            tag = '%s.%s.%d' % (v[0], v[1], max(patches) + 1 if patches
+                                else 0)
+        if tag not in tags:
+            self.w.do('push_tag', tag=tag, ref=d)
 
     def m_decline(self):
         pr = self._pick_pr()
@@ -690,7 +728,37 @@ class Gen:
         self.run('pr', a['id'])
 
 
+def op_hand_branch_then_merge(g):
+    """a PR is queued (or pending), an evaluation that creates or removes
+    nothing runs, somebody opens the next development branch with plain git,
+    then the builds turn green and the PR is evaluated"""
+    dests = [d for d in g.dests() if not d.startswith('hotfix/')]
+    a = g.new_pr(dests[0] if g.rng.random() < 0.6 else g.rng.choice(dests),
+                 evaluate=False)
+    g.queue_pr(a)
+    heads = g.w.refs()[0]
+    qs = [b for b in sorted(heads) if b.startswith('q/') and
+          not b.startswith('q/w/')]
+    if qs:
+        for b in qs:
+            g.w.do('set_status', ref='tip:' + b, state='SUCCESSFUL')
+        g.w.do('set_status', ref='tip:' + qs[-1], state='INPROGRESS')
+        g.run('commit', 'tip:' + qs[0])
+    else:
+        g.run('pr', a['id'])
+    g.m_hand_branch()
+    for b in sorted(g.w.refs()[0]):
+        if b.startswith('q/') or b == a['src'] or \
+                (b.startswith('w/') and b.endswith('/' + a['src'])):
+            g.w.do('set_status', ref='tip:' + b, state='SUCCESSFUL')
+    if qs:
+        g.run('commit', 'tip:' + qs[-1])
+    g.run('pr', a['id'])
+    g.m_forward(a, 3)
+
+
 OPENERS = {
+    'hand_branch_then_merge': op_hand_branch_then_merge,
     'two_prs_same_base': Gen.op_two_prs_same_base,
     'stab_between_devs': Gen.op_stab_between_devs,
     'three_queued': Gen.op_three_queued,
